@@ -1,6 +1,7 @@
 import Mathlib.Tactic.LinearCombination
 import DilithiumVerif.Lemmas.VerifyW
 import DilithiumVerif.Lemmas.HintCodec
+import DilithiumVerif.Lemmas.DecUnique
 /-
   Lemmas.Complete — an accepted signing iteration produces (c̃, z, h) from which the verifier's arithmetic
   reconstructs exactly the signer's w1.
@@ -76,16 +77,34 @@ end DV.Complete
 namespace DV.Complete
 open DV DV.NttSem DV.PolySem DV.VecSem DV.RoundSem DV.NttMul DV.NttZ
 
+/-- what an accepted iteration establishes about the secret-dependent quantities (C06): the mask y = z − c·s1, w = A·y,
+    its high and low bits, the low bits of w − c·s2 and the product c·t0, with the bounds that were tested -/
+structure SignSecret (p : Params) (mat : List PolyVec) (s1 s2 t0 : PolyVec) (rp : List Nat) (nonce : Int) (cp : Poly)
+    (z w1 a0 y w w0 cs2 r0 ct0 : PolyVec) : Prop where
+  mask : l_uniform_gamma1 p rp nonce = .ok y
+  zy : ∀ j, j < p.l → ∀ i, i < 256 → (El (z.getD j []) i : K) = El cp i * El (s1.getD j []) i + El (y.getD j []) i
+  wl : w.length = p.k
+  wstd : ∀ a ∈ w, Std a
+  wy : ∀ r, r < p.k → ∀ i, i < 256 → (El (w.getD r []) i : K) = rowDot (mat.getD r []) y p.l i
+  dec : All3 (fun a hi lo => a.length = 256 ∧ All3 (DecC p.lvl) a hi lo) w w1 w0
+  cs2E : ∀ r, r < p.k → ∀ i, i < 256 → (El (cs2.getD r []) i : K) = El cp i * El (s2.getD r []) i
+  low : ∀ r, r < p.k → ∀ n, n < 256 →
+    decompose p.lvl (((w.getD r []).getD n 0 - (cs2.getD r []).getD n 0) % Q) = .ok ((r0.getD r []).getD n 0, (w1.getD r []).getD n 0) ∧
+    -((p.gamma2 : Int) - p.beta) < (r0.getD r []).getD n 0 ∧ (r0.getD r []).getD n 0 < (p.gamma2 : Int) - p.beta
+  ct0E : ∀ r, r < p.k → (∀ i, i < 256 → (El (ct0.getD r []) i : K) = El cp i * El (t0.getD r []) i) ∧ PolyOK (p.gamma2 : Int) (ct0.getD r [])
+  a0E : ∀ r, r < p.k → ∀ i, i < 256 → (El (a0.getD r []) i : K) = El (r0.getD r []) i + El (ct0.getD r []) i
+
 set_option maxHeartbeats 1600000 in
 /-- **Signer side.** From an accepted iteration: the emitted (c̃, z, h), the high bits w1 that were hashed, and the value
     a0 = (w0 − c·s2) + c·t0 whose hints were emitted, with their ranges and the ring identity that ties them to A·z. -/
-theorem sign_facts (p : Params) (hp : p ∈ allParams) (mat : List PolyVec) (hmat : MatOK p mat)
+theorem sign_facts_full (p : Params) (hp : p ∈ allParams) (mat : List PolyVec) (hmat : MatOK p mat)
     (s1 s2 t0 s1h s2h t0h : PolyVec) (kd : KeyData p s1 s2 t0 s1h s2h t0h)
     (mu rp : List Nat) (nonce : Int) (sig : List Nat)
     (Hy : ∀ y, l_uniform_gamma1 p rp nonce = .ok y → y.length = p.l ∧ ∀ a ∈ y, PolyOK ((p.gamma1 : Int) + 1) a)
     (Hc : ∀ ct cp, poly_challenge p FUEL ct = .ok cp → PolyOK 2 cp)
     (hacc : sign_iteration p mat mu rp s1h s2h t0h nonce = .ok (.accept sig)) :
-    ∃ ct cp z h w1 a0, SignFacts p mat s1 s2 t0 mu sig ct cp z h w1 a0 := by
+    ∃ ct cp z h w1 a0, SignFacts p mat s1 s2 t0 mu sig ct cp z h w1 a0 ∧
+      ∃ y w w0 cs2 r0 ct0, SignSecret p mat s1 s2 t0 rp nonce cp z w1 a0 y w w0 cs2 r0 ct0 := by
   have hq : Q = 8380417 := Q_val'
   obtain ⟨hl0, hl7, hk0, hk8, hg1, hg2, hg1u, hg1l, hb0, hbu, hg2u, hg2l⟩ := params_facts p hp
   -- transforms of the key parts
@@ -204,51 +223,112 @@ theorem sign_facts (p : Params) (hp : p ∈ allParams) (mat : List PolyVec) (hma
   have hwt : (HintCodec.idxOf h).length ≤ p.omega := by
     have := hcount.1
     omega
-  refine ⟨ct, cp, z, h, w1, a0, ⟨hct, hcp, hpack, hzl, hzb, hrel, hbits, hwt, hw1l, ?_⟩⟩
-  intro r hr
-  have hrw : r < w.length := by rw [hwl]; exact hr
-  have fdec := rdec.getD [] [] [] r hrw
-  have fr0A := rrA.getD [] [] [] r (by rw [hw0l]; exact hr)
-  have fr0 := rr0.getD [] [] r (by rw [rrA.length.2, hw0l]; exact hr)
-  have fcs2 := rs.getD [] [] r (by rw [rs2.length, kd.s2l]; exact hr)
-  have fs2 := rs2.getD [] [] r (by rw [kd.s2l]; exact hr)
-  have ft := rt.getD [] [] r (by rw [rt0.length, kd.t0l]; exact hr)
-  have ft0 := rt0.getD [] [] r (by rw [kd.t0l]; exact hr)
-  have fct0 := rct0.getD [] [] r (by rw [rt.length, rt0.length, kd.t0l]; exact hr)
-  have fa0 := ra0.getD [] [] [] r (by rw [hr0l]; exact hr)
-  have hw1r_len : (w1.getD r []).length = 256 := fdec.2.length.1.trans fdec.1
-  have hw0r_len : (w0.getD r []).length = 256 := fdec.2.length.2.trans fdec.1
-  have hr0r := hr0b _ (getD_mem r0 r [] (by rw [hr0l]; exact hr))
-  have hct0r := hct0b _ (getD_mem ct0 r [] (by rw [hct0l]; exact hr))
-  refine ⟨hw1r_len, fa0.1.1, ?_, ?_⟩
-  · intro nn hnn
-    have fd := fdec.2.getD 0 0 0 nn (by rw [fdec.1]; exact hnn)
-    have hb := fa0.1.2 _ (getD_mem (a0.getD r []) nn 0 (by rw [fa0.1.1]; exact hnn))
-    rw [← hg2]
-    exact ⟨fd.1, fd.2.1, by omega, by omega⟩
-  · intro i hi
-    -- El identities
-    have E_w : (El (w.getD r []) i : K) = rowDot (mat.getD r []) y p.l i := hwE r hr i hi
-    have E_dec : (El (w.getD r []) i : K) = ((2 * gamma2Of p.lvl : Int) : K) * El (w1.getD r []) i + El (w0.getD r []) i := by
-      unfold El
-      rw [dec_cast MK p.lvl fdec.2, Ev_add _ _ (by simp only [castL, List.length_map]; rw [hw1r_len, hw0r_len]), Ev_smul]
-    have E_r0 : (El (r0.getD r []) i : K) = El (w0.getD r []) i - El (cs2.getD r []) i := by
-      rw [El_congr _ _ fr0.2 i, El_sub _ _ _ (by rw [hw0r_len, fcs2.1.1]) fr0A.2 i]
-    have E_cs2 : (El (cs2.getD r []) i : K) = El cp i * El (s2.getD r []) i := by rw [fcs2.2 i hi, fs2.2 i hi]
-    have E_ct0 : (El (ct0.getD r []) i : K) = El cp i * El (t0.getD r []) i := by
-      rw [El_congr _ _ fct0.2 i, ft.2 i hi, ft0.2 i hi]
-    have E_a0 : (El (a0.getD r []) i : K) = El (r0.getD r []) i + El (ct0.getD r []) i :=
-      El_add _ _ _ (by rw [hr0r.1, hct0r.1]) fa0.2 i
-    have E_z : rowDot (mat.getD r []) z p.l i = El cp i * rowDot (mat.getD r []) s1 p.l i + rowDot (mat.getD r []) y p.l i := by
-      apply rowDot_lin
-      intro j hj
-      have fz := rzR.getD [] [] j (by rw [rzC.length.2, hzBl]; exact hj)
-      have fzC := rzC.getD [] [] [] j (by rw [hzBl]; exact hj)
-      have fzB := rz.getD [] [] j (by rw [rs1.length, kd.s1l]; exact hj)
-      have fs1 := rs1.getD [] [] j (by rw [kd.s1l]; exact hj)
-      have hyj := hyb _ (getD_mem y j [] (by rw [hyl]; exact hj))
-      rw [El_congr _ _ fz.2 i, El_add _ _ _ (by rw [fzB.1.1, hyj.1]) fzC.2 i, fzB.2 i hi, fs1.2 i hi]
-    linear_combination -E_dec + E_w + E_a0 + E_r0 - E_z + E_ct0 - E_cs2
+  have hzy : ∀ j, j < p.l → ∀ i, i < 256 → (El (z.getD j []) i : K) = El cp i * El (s1.getD j []) i + El (y.getD j []) i := by
+    intro j hj i hi
+    have fz := rzR.getD [] [] j (by rw [rzC.length.2, hzBl]; exact hj)
+    have fzC := rzC.getD [] [] [] j (by rw [hzBl]; exact hj)
+    have fzB := rz.getD [] [] j (by rw [rs1.length, kd.s1l]; exact hj)
+    have fs1 := rs1.getD [] [] j (by rw [kd.s1l]; exact hj)
+    have hyj := hyb _ (getD_mem y j [] (by rw [hyl]; exact hj))
+    rw [El_congr _ _ fz.2 i, El_add _ _ _ (by rw [fzB.1.1, hyj.1]) fzC.2 i, fzB.2 i hi, fs1.2 i hi]
+  have hrows : ∀ r, r < p.k → (w1.getD r []).length = 256 ∧ (a0.getD r []).length = 256 ∧
+      (∀ n, n < 256 → 0 ≤ (w1.getD r []).getD n 0 ∧ (w1.getD r []).getD n 0 < mOf p.lvl ∧
+        -(2 * gamma2Of p.lvl) < (a0.getD r []).getD n 0 ∧ (a0.getD r []).getD n 0 < 2 * gamma2Of p.lvl) ∧
+      ∀ i, i < 256 → ((2 * gamma2Of p.lvl : Int) : K) * El (w1.getD r []) i + El (a0.getD r []) i =
+        rowDot (mat.getD r []) z p.l i - El cp i * rowDot (mat.getD r []) s1 p.l i - El cp i * El (s2.getD r []) i
+          + El cp i * El (t0.getD r []) i := by
+    intro r hr
+    have hrw : r < w.length := by rw [hwl]; exact hr
+    have fdec := rdec.getD [] [] [] r hrw
+    have fr0A := rrA.getD [] [] [] r (by rw [hw0l]; exact hr)
+    have fr0 := rr0.getD [] [] r (by rw [rrA.length.2, hw0l]; exact hr)
+    have fcs2 := rs.getD [] [] r (by rw [rs2.length, kd.s2l]; exact hr)
+    have fs2 := rs2.getD [] [] r (by rw [kd.s2l]; exact hr)
+    have ft := rt.getD [] [] r (by rw [rt0.length, kd.t0l]; exact hr)
+    have ft0 := rt0.getD [] [] r (by rw [kd.t0l]; exact hr)
+    have fct0 := rct0.getD [] [] r (by rw [rt.length, rt0.length, kd.t0l]; exact hr)
+    have fa0 := ra0.getD [] [] [] r (by rw [hr0l]; exact hr)
+    have hw1r_len : (w1.getD r []).length = 256 := fdec.2.length.1.trans fdec.1
+    have hw0r_len : (w0.getD r []).length = 256 := fdec.2.length.2.trans fdec.1
+    have hr0r := hr0b _ (getD_mem r0 r [] (by rw [hr0l]; exact hr))
+    have hct0r := hct0b _ (getD_mem ct0 r [] (by rw [hct0l]; exact hr))
+    refine ⟨hw1r_len, fa0.1.1, ?_, ?_⟩
+    · intro nn hnn
+      have fd := fdec.2.getD 0 0 0 nn (by rw [fdec.1]; exact hnn)
+      have hb := fa0.1.2 _ (getD_mem (a0.getD r []) nn 0 (by rw [fa0.1.1]; exact hnn))
+      rw [← hg2]
+      exact ⟨fd.1, fd.2.1, by omega, by omega⟩
+    · intro i hi
+      -- El identities
+      have E_w : (El (w.getD r []) i : K) = rowDot (mat.getD r []) y p.l i := hwE r hr i hi
+      have E_dec : (El (w.getD r []) i : K) = ((2 * gamma2Of p.lvl : Int) : K) * El (w1.getD r []) i + El (w0.getD r []) i := by
+        unfold El
+        rw [dec_cast MK p.lvl fdec.2, Ev_add _ _ (by simp only [castL, List.length_map]; rw [hw1r_len, hw0r_len]), Ev_smul]
+      have E_r0 : (El (r0.getD r []) i : K) = El (w0.getD r []) i - El (cs2.getD r []) i := by
+        rw [El_congr _ _ fr0.2 i, El_sub _ _ _ (by rw [hw0r_len, fcs2.1.1]) fr0A.2 i]
+      have E_cs2 : (El (cs2.getD r []) i : K) = El cp i * El (s2.getD r []) i := by rw [fcs2.2 i hi, fs2.2 i hi]
+      have E_ct0 : (El (ct0.getD r []) i : K) = El cp i * El (t0.getD r []) i := by
+        rw [El_congr _ _ fct0.2 i, ft.2 i hi, ft0.2 i hi]
+      have E_a0 : (El (a0.getD r []) i : K) = El (r0.getD r []) i + El (ct0.getD r []) i :=
+        El_add _ _ _ (by rw [hr0r.1, hct0r.1]) fa0.2 i
+      have E_z : rowDot (mat.getD r []) z p.l i = El cp i * rowDot (mat.getD r []) s1 p.l i + rowDot (mat.getD r []) y p.l i := by
+        apply rowDot_lin
+        intro j hj
+        have fz := rzR.getD [] [] j (by rw [rzC.length.2, hzBl]; exact hj)
+        have fzC := rzC.getD [] [] [] j (by rw [hzBl]; exact hj)
+        have fzB := rz.getD [] [] j (by rw [rs1.length, kd.s1l]; exact hj)
+        have fs1 := rs1.getD [] [] j (by rw [kd.s1l]; exact hj)
+        have hyj := hyb _ (getD_mem y j [] (by rw [hyl]; exact hj))
+        rw [El_congr _ _ fz.2 i, El_add _ _ _ (by rw [fzB.1.1, hyj.1]) fzC.2 i, fzB.2 i hi, fs1.2 i hi]
+      linear_combination -E_dec + E_w + E_a0 + E_r0 - E_z + E_ct0 - E_cs2
+  refine ⟨ct, cp, z, h, w1, a0, ⟨hct, hcp, hpack, hzl, hzb, hrel, hbits, hwt, hw1l, hrows⟩, y, w, w0, cs2, r0, ct0,
+    ⟨hy, hzy, hwl, hwstd, hwE, rdec, ?_, ?_, ?_, ?_⟩⟩
+  · intro r hr i hi
+    have fcs2 := rs.getD [] [] r (by rw [rs2.length, kd.s2l]; exact hr)
+    have fs2 := rs2.getD [] [] r (by rw [kd.s2l]; exact hr)
+    rw [fcs2.2 i hi, fs2.2 i hi]
+  · intro r hr n hn
+    have hrw : r < w.length := by rw [hwl]; exact hr
+    have fdec := rdec.getD [] [] [] r hrw
+    have fr0A := rrA.getD [] [] [] r (by rw [hw0l]; exact hr)
+    have fr0 := rr0.getD [] [] r (by rw [rrA.length.2, hw0l]; exact hr)
+    have fcs2 := rs.getD [] [] r (by rw [rs2.length, kd.s2l]; exact hr)
+    have hr0r := hr0b _ (getD_mem r0 r [] (by rw [hr0l]; exact hr))
+    have hw0r_len : (w0.getD r []).length = 256 := fdec.2.length.2.trans fdec.1
+    have fd := fdec.2.getD 0 0 0 n (by rw [fdec.1]; exact hn)
+    have hb := hr0r.2 _ (getD_mem (r0.getD r []) n 0 (by rw [hr0r.1]; exact hn))
+    -- r0[n] ≡ rA[n] ≡ w0[n] − cs2[n] (mod q)
+    have c1 := cong_of_castL _ _ fr0.2 n
+    have c2 : ((rA.getD r []).getD n 0 - ((w0.getD r []).getD n 0 - (cs2.getD r []).getD n 0)) % 8380417 = 0 := by
+      apply zmod_cong
+      rw [← castL_getD, fr0A.2, zipWith_getD _ _ _ n (by simp only [castL, List.length_map]; rw [hw0r_len]; exact hn)
+        (by simp only [castL, List.length_map]; rw [fcs2.1.1]; exact hn), castL_getD, castL_getD, Int.cast_sub]
+    have c3 := fd.2.2.1
+    rw [hq] at c3 ⊢
+    have hval : ((w.getD r []).getD n 0 - (cs2.getD r []).getD n 0) % 8380417
+        = ((w1.getD r []).getD n 0 * (2 * gamma2Of p.lvl) + (r0.getD r []).getD n 0) % 8380417 := by omega
+    rw [hval, ← hq]
+    exact ⟨decompose_unique p.lvl _ _ ⟨fd.1, fd.2.1⟩ (by rw [← hg2]; omega), hb.1, hb.2⟩
+  · intro r hr
+    have ft := rt.getD [] [] r (by rw [rt0.length, kd.t0l]; exact hr)
+    have ft0 := rt0.getD [] [] r (by rw [kd.t0l]; exact hr)
+    have fct0 := rct0.getD [] [] r (by rw [rt.length, rt0.length, kd.t0l]; exact hr)
+    exact ⟨fun i hi => by rw [El_congr _ _ fct0.2 i, ft.2 i hi, ft0.2 i hi], hct0b _ (getD_mem ct0 r [] (by rw [hct0l]; exact hr))⟩
+  · intro r hr i hi
+    have fa0 := ra0.getD [] [] [] r (by rw [hr0l]; exact hr)
+    have hr0r := hr0b _ (getD_mem r0 r [] (by rw [hr0l]; exact hr))
+    have hct0r := hct0b _ (getD_mem ct0 r [] (by rw [hct0l]; exact hr))
+    exact El_add _ _ _ (by rw [hr0r.1, hct0r.1]) fa0.2 i
+
+theorem sign_facts (p : Params) (hp : p ∈ allParams) (mat : List PolyVec) (hmat : MatOK p mat)
+    (s1 s2 t0 s1h s2h t0h : PolyVec) (kd : KeyData p s1 s2 t0 s1h s2h t0h)
+    (mu rp : List Nat) (nonce : Int) (sig : List Nat)
+    (Hy : ∀ y, l_uniform_gamma1 p rp nonce = .ok y → y.length = p.l ∧ ∀ a ∈ y, PolyOK ((p.gamma1 : Int) + 1) a)
+    (Hc : ∀ ct cp, poly_challenge p FUEL ct = .ok cp → PolyOK 2 cp)
+    (hacc : sign_iteration p mat mu rp s1h s2h t0h nonce = .ok (.accept sig)) :
+    ∃ ct cp z h w1 a0, SignFacts p mat s1 s2 t0 mu sig ct cp z h w1 a0 := by
+  obtain ⟨ct, cp, z, h, w1, a0, sf, _⟩ := sign_facts_full p hp mat hmat s1 s2 t0 s1h s2h t0h kd mu rp nonce sig Hy Hc hacc
+  exact ⟨ct, cp, z, h, w1, a0, sf⟩
 
 end DV.Complete
 
